@@ -2115,6 +2115,9 @@ def serialize_tensor_into(
     if isinstance(from_, TensorProtoTensor):
         # Directly copy from the tensor proto if it is available
         tensor_proto.CopyFrom(from_.raw)
+        # The copied proto already carries its metadata_props; replace them with the
+        # (possibly edited) IR view instead of appending a second copy
+        del tensor_proto.metadata_props[:]
         if from_.metadata_props:
             _serialize_metadata_props_into(tensor_proto.metadata_props, from_.metadata_props)
         return
